@@ -102,10 +102,18 @@ def run_case(rng, res, case_id):
                 got = exc = None
                 kw = dict(_mode=mode, _depth=depth, _callee=rng.randrange(8),
                           _inner_mode='raise' if rng.random() < 0.2 else 'ret', _ret=retobj)
+                if rng.random() < 0.25:
+                    # "any arguments": keyword names that a wrapper might use itself must pass through untouched
+                    for nm_ in rng.sample(['sync', 'func', 't', 'out', 'args', 'kwargs', 'self', 'name', 'fname', 'times'], rng.randint(1, 3)):
+                        kw[nm_] = rng.choice([True, False, None, 1.5, 'x'])
                 try:
                     got = funcs[f](1, 'a', **kw)
                 except Boom as e:
                     exc = e
+                except Exception as e:  # noqa: BLE001  the wrapped function only ever raises Boom
+                    res.violation(f'calling the traced function with keyword arguments {sorted(k for k in kw if not k.startswith("_"))} raised {type(e).__name__}: {e} '
+                                  '(the undecorated function accepts them and does not raise this)', dict(case=case_id, ops=ops_desc))
+                    return
                 ops_desc.append(('call', names[f], mode, depth))
                 res.count('call_checks')
                 if mode == 'raise':
